@@ -1016,6 +1016,9 @@ class Job:
         return False
 
     def __getstate__(self):
+        # Instantiate the state point before the attributes are copied: a shallow
+        # copy must share it with this handle to follow a later change of the id.
+        self.statepoint
         state = dict(self.__dict__)
         # Locks are not pickleable and must be removed from the state
         del state["_lock"]
